@@ -202,36 +202,86 @@ def apply_write(obj, e, ids):
         raise Machinery('unknown write %r' % (e,))
 
 
-def s2c_hist(ctx, emitted):
+def s2c_hist(ctx, emitted, tag='hist'):
     """every history TLC enumerated (MC_EqHist): the objects are built once, every write is applied to the real object
     in place and read back (it must project to the descriptor TLC computed), every call is compared with what the
-    statement pins for the descriptors the objects have at that moment"""
-    from pyg_base import eq
-    fnd = Findings(ctx, 's2c-hist')
+    statement pins for the descriptors the objects have at that moment.  SESSIONS (hist[0].sess): calls eq(obj_i, obj_j)
+    for any i, j and in_(obj_i, [the others]) on a group of objects that collide on class / length / text; between two
+    calls the caller may drop an object and build a new one in its place (rebuild)"""
+    from pyg_base import eq, in_
+    fnd, sfnd = Findings(ctx, 's2c-' + tag), Findings(ctx, 's2c-' + tag + '-session')
     stats = {'histories': 0, 'calls': 0, 'calls_after_a_write': 0, 'pinned_answer_changed_by_a_write': 0, 'writes': {}}
+    sstats = {'sessions': 0, 'eq_calls': 0, 'in_calls': 0, 'rebuilds': 0, 'later_call_of_one_class_pair_pinned_the_other_way': 0,
+              'same_call_again_after_a_rebuild_pinned_the_other_way': 0, 'calls_on_the_very_same_object': 0, 'longest': 0}
+    seen = set()
     for h in emitted:
         hist = h['hist']
+        key = repr(hist)
+        if key in seen:                 # (a simulated behaviour may be printed more than once)
+            continue
+        seen.add(key)
+        sess = bool(hist[0].get('sess'))
         ids = Ids()
         objs = [realise(d, ids) for d in hist[0]['init']]
-        stats['histories'] += 1
-        last, wrote, ops = {}, False, []
+        if sess:
+            sstats['sessions'] += 1
+            sstats['longest'] = max(sstats['longest'], len(hist) - 1)
+        else:
+            stats['histories'] += 1
+        last, wrote, ops, byclass, rebuilt = {}, False, [], {}, False
+        x = y = o = seq = None
         for e in hist[1:]:
             if e['op'] == 'eq':
                 x, y = objs[e['i'] - 1], objs[e['j'] - 1]
                 dx, dy = project(x, ids), project(y, ids)
                 got = outcome(eq, x, y)
                 ctx.evals += 1
-                stats['calls'] += 1
-                stats['calls_after_a_write'] += wrote
                 pinned = 'T' if e['ifF'] else 'F' if e['ifT'] else 'free'
-                if last.get((e['i'], e['j']), pinned) != pinned:
-                    stats['pinned_answer_changed_by_a_write'] += 1
-                    ctx.note(('s2c-hist', repr(hist[:len(ops) + 2])))
+                if sess:
+                    sstats['eq_calls'] += 1
+                    sstats['calls_on_the_very_same_object'] += e['i'] == e['j']
+                    cp = (klass(dx), klass(dy))
+                    if pinned != 'free' and byclass.get(cp, pinned) != pinned:
+                        sstats['later_call_of_one_class_pair_pinned_the_other_way'] += 1
+                        ctx.note(('s2c-session', repr(hist[:len(ops) + 2])))
+                    if pinned != 'free':
+                        byclass.setdefault(cp, pinned)
+                    if rebuilt and last.get((e['i'], e['j']), pinned) != pinned:
+                        sstats['same_call_again_after_a_rebuild_pinned_the_other_way'] += 1
+                else:
+                    stats['calls'] += 1
+                    stats['calls_after_a_write'] += wrote
+                    if last.get((e['i'], e['j']), pinned) != pinned:
+                        stats['pinned_answer_changed_by_a_write'] += 1
+                        ctx.note(('s2c-hist', repr(hist[:len(ops) + 2])))
                 last[(e['i'], e['j'])] = pinned
                 clause = e['ifT'] if got == 'T' else e['ifF'] if got == 'F' else 'not_boolean'
                 if clause != '':
-                    fnd.add(clause, [dx, dy], [short(x), short(y)], {'observed': got, 'history': ops + ['eq(%d,%d)' % (e['i'], e['j'])], 'init': hist[0]['init']}, at=e['at'])
+                    (sfnd if sess else fnd).add(clause, [dx, dy], [short(x), short(y)],
+                                                {'observed': got, 'history': ops + ['eq(%d,%d)' % (e['i'], e['j'])], 'init': hist[0]['init']}, at=e['at'])
+                if project(x, ids) != dx or project(y, ids) != dy:
+                    (sfnd if sess else fnd).add('operand_changed', [dx, dy], [short(x), short(y)], {'history': ops + ['eq(%d,%d)' % (e['i'], e['j'])], 'init': hist[0]['init']})
                 ops.append('eq(%d,%d)=%s' % (e['i'], e['j'], got))
+            elif e['op'] == 'in':
+                x, seq = objs[e['i'] - 1], [objs[j - 1] for j in e['seq']]
+                dx, dseq = project(x, ids), [project(v, ids) for v in seq]
+                got = outcome(in_, x, seq)
+                ctx.evals += 1
+                sstats['in_calls'] += 1
+                if got not in e['want']:
+                    clause = 'in_not_boolean' if got not in ('T', 'F') else 'in_not_spec_membership'
+                    sfnd.add(clause, [dx, ['l', dseq]], [short(x), short(seq)],
+                             {'observed': got, 'expected_one_of': e['want'], 'history': ops + ['in_(%d,%s)' % (e['i'], e['seq'])], 'init': hist[0]['init']})
+                ops.append('in_(%d,%s)=%s' % (e['i'], e['seq'], got))
+            elif e['op'] == 'rebuild':
+                x = y = o = seq = None
+                objs[e['i'] - 1] = None                       # the caller drops the object ...
+                objs[e['i'] - 1] = realise(e['now'], ids)     # ... and builds a new one: another value, possibly at the address of the dead one
+                rebuilt = True
+                sstats['rebuilds'] += 1
+                if project(objs[e['i'] - 1], ids) != e['now']:
+                    raise Machinery('rebuild %r: the new object reads back as %r' % (e, project(objs[e['i'] - 1], ids)))
+                ops.append('rebuild(%d)' % e['i'])
             else:
                 o = objs[e['i'] - 1]
                 apply_write(o, e, ids)
@@ -242,10 +292,64 @@ def s2c_hist(ctx, emitted):
                 ops.append('%s(%s)' % (e['op'], ','.join(str(e[k]) for k in ('i', 'axis', 'k', 'v') if k in e)))
         ctx.traces += 1
     fnd.flush()
-    if stats['pinned_answer_changed_by_a_write'] == 0 or len(stats['writes']) < 5:
-        raise Machinery('vacuous: the histories never change a pinned answer / miss a kind of write: %r' % stats)
-    ctx.extra['c14_s2c_histories'] = stats
-    ctx.sample({'s2c_history': emitted[len(emitted) // 2]})
+    sfnd.flush()
+    if tag == 'hist':
+        if stats['pinned_answer_changed_by_a_write'] == 0 or len(stats['writes']) < 5:
+            raise Machinery('vacuous: the histories never change a pinned answer / miss a kind of write: %r' % stats)
+        if min(sstats[k] for k in ('sessions', 'in_calls', 'rebuilds', 'later_call_of_one_class_pair_pinned_the_other_way',
+                                   'same_call_again_after_a_rebuild_pinned_the_other_way', 'calls_on_the_very_same_object')) == 0:
+            raise Machinery('vacuous: the sessions never collide / never rebuild / never call in_: %r' % sstats)
+        ctx.extra['c14_s2c_histories'] = stats
+    elif sstats['sessions'] == 0:
+        raise Machinery('vacuous: no simulated session')
+    ctx.extra.setdefault('c14_s2c_sessions', {})[tag] = sstats
+    ctx.sample({'s2c_history_' + tag: emitted[len(emitted) // 2]})
+
+
+def s2c_wide(ctx, cases, tag):
+    """the WIDE containers TLC enumerated (MC_EqWide): n structurally identical members, in y one of them - at position p,
+    every position - replaced; eq(x, y) and eq(y, x) compared with what the statement pins; for the list kind also
+    in_(another copy of the replaced member, the members of y)"""
+    from pyg_base import eq, in_
+    fnd = Findings(ctx, 's2c-' + tag)
+    stats = {'cases': 0, 'copies': 0, 'late_difference': 0, 'kinds': {}, 'widths': {}, 'in_calls': 0, 'pinned': {}}
+    for k, c in enumerate(cases):
+        ids = Ids()
+        x, y = realise(c['x'], ids), realise(c['y'], ids)
+        if project(x, ids) != c['x'] or project(y, ids) != c['y']:
+            raise Machinery('descriptor does not survive realise/project: %r' % (c,))
+        stats['cases'] += 1
+        stats['copies'] += c['p'] == 0
+        stats['late_difference'] += c['p'] >= 6 and c['ifT'] != ''
+        stats['kinds'][c['kind']] = stats['kinds'].get(c['kind'], 0) + 1
+        stats['widths'][str(c['n'])] = stats['widths'].get(str(c['n']), 0) + 1
+        key = c['ifT'] or c['ifF'] or 'free'
+        stats['pinned'][key] = stats['pinned'].get(key, 0) + 1
+        for a, b, da, db, ift, iff, at in ((x, y, c['x'], c['y'], c['ifT'], c['ifF'], c['at']), (y, x, c['y'], c['x'], c['rifT'], c['rifF'], c['rat'])):
+            got = outcome(eq, a, b)
+            ctx.evals += 1
+            clause = ift if got == 'T' else iff if got == 'F' else 'not_boolean'
+            if clause != '':
+                fnd.add(clause, [da, db], [short(a), short(b)], {'observed': got, 'wide': {'kind': c['kind'], 'n': c['n'], 'p': c['p']}}, at=at)
+        if project(x, ids) != c['x'] or project(y, ids) != c['y']:
+            fnd.add('operand_changed', [c['x'], c['y']], [short(x), short(y)])
+        if c['inw']:
+            alt, seq = realise(c['alt'], ids), [realise(d, ids) for d in c['seq']]
+            got = outcome(in_, alt, seq)
+            ctx.evals += 1
+            stats['in_calls'] += 1
+            if got not in c['inw']:
+                clause = 'in_not_boolean' if got not in ('T', 'F') else 'in_not_spec_membership'
+                fnd.add(clause, [c['alt'], ['l', c['seq']]], [short(alt), short(seq)], {'observed': got, 'expected_one_of': c['inw'], 'wide': {'n': c['n'], 'p': c['p']}})
+        if c['ifT'] != '' and c['p'] >= 2:
+            ctx.note(('s2c-wide', c['kind'], c['n'], c['p'], repr(c['y'])[:0] + str(k)))
+        if k % 997 == 5:
+            ctx.sample({'s2c_wide_case': {kk: c[kk] for kk in ('kind', 'n', 'p', 'ifT', 'ifF', 'rifT', 'rifF', 'inw')}, 'x': short(x, 300), 'y': short(y, 300)})
+        ctx.traces += 1
+    fnd.flush()
+    if stats['late_difference'] == 0 or stats['copies'] == 0 or stats['in_calls'] == 0 or len(stats['kinds']) < 6:
+        raise Machinery('vacuous: the wide cases hold no late difference / no copy / no in_ call / too few container kinds: %r' % stats)
+    ctx.extra.setdefault('c14_s2c_wide', {})[tag] = stats
 
 
 def random_histories(ctx, nhist):
